@@ -56,17 +56,18 @@ type Expected struct {
 }
 
 type StreamOpts struct {
-	MaxItems    int
-	StartDB     int  // source db in force at Base (-1: unknown => generator emits SELECT first)
-	TxnHeavy    bool // >= 40% of items inside transactions
-	SelectHeavy bool
-	BigArgs     bool
-	Reserved    bool // include commands on reserved keys / bookkeeping traffic
-	Filters     *FilterSpec
-	NumDBs      int
-	NoUnknown   bool          // only commands of the generator's key table (keys always determinable)
-	OnlyDB0     bool          // SELECT only ever selects database 0 (bidirectional replay)
-	KeyGen      func() []byte // optional key source (cluster harnesses control slots)
+	MaxItems       int
+	StartDB        int  // source db in force at Base (-1: unknown => generator emits SELECT first)
+	TxnHeavy       bool // >= 40% of items inside transactions
+	TxnInnerSelect bool // some transactions switch the database in their body
+	SelectHeavy    bool
+	BigArgs        bool
+	Reserved       bool // include commands on reserved keys / bookkeeping traffic
+	Filters        *FilterSpec
+	NumDBs         int
+	NoUnknown      bool          // only commands of the generator's key table (keys always determinable)
+	OnlyDB0        bool          // SELECT only ever selects database 0 (bidirectional replay)
+	KeyGen         func() []byte // optional key source (cluster harnesses control slots)
 }
 
 // FilterSpec is the harness' own description of the configured filters (also rendered into the tool's config).
@@ -392,6 +393,7 @@ func GenStream(c *simrt.Chooser, o StreamOpts) *Stream {
 		st.Bytes = append(st.Bytes, raw...)
 		st.Boundaries[off] = it.Idx
 	}
+	selTxn := 0 // id of the transaction a SELECT is emitted in (0: outside)
 	selectDB := func() {
 		db := c.Choose("db", o.NumDBs)
 		if c.Choose("dbsmall", 2) == 0 {
@@ -401,7 +403,7 @@ func GenStream(c *simrt.Chooser, o StreamOpts) *Stream {
 			db = 0
 		}
 		curDB = db
-		add(KSelect, 0, randCase(c, "select"), []byte(strconv.Itoa(db)))
+		add(KSelect, selTxn, randCase(c, "select"), []byte(strconv.Itoa(db)))
 	}
 	n := 1 + c.Choose("nitems", o.MaxItems)
 	if curDB < 0 {
@@ -434,6 +436,13 @@ func GenStream(c *simrt.Chooser, o StreamOpts) *Stream {
 				ln = 5 + c.Choose("txnlen2", 40)
 			}
 			for i := 0; i < ln; i++ {
+				// a transaction (or script) that writes to two databases: the master emits the SELECT where the
+				// database changes, inside the MULTI ... EXEC it propagates
+				if o.TxnInnerSelect && !o.OnlyDB0 && i > 0 && c.Choose("txninnersel", 8) == 0 {
+					selTxn = id
+					selectDB()
+					selTxn = 0
+				}
 				nm, a := g.businessCmd()
 				add(KCmd, id, nm, a...)
 			}
